@@ -2,3 +2,4 @@ import PcVerif.Util.Str
 import PcVerif.Util.Proto
 import PcVerif.Ops
 import PcVerif.Props.C20
+import PcVerif.Props.C19
